@@ -72,6 +72,18 @@ func (s *S) yield(point string) {
 	s.cur.Store(t)
 }
 
+// Yield is a user-level yield point: it parks the calling task unconditionally (no prefix filter).
+func (s *S) Yield(point string) {
+	t := s.cur.Load()
+	if t == nil {
+		return
+	}
+	s.cur.Store(nil)
+	t.parked <- point
+	<-t.resume
+	s.cur.Store(t)
+}
+
 // Spawn creates a task that will run f; it does not start before its first Step.
 func (s *S) Spawn(f func()) *Task {
 	t := &Task{ID: len(s.tasks), resume: make(chan struct{}), parked: make(chan string), Point: "start"}
@@ -160,3 +172,95 @@ func (s *S) Tasks() []*Task { return s.tasks }
 
 // Current returns the task that is running right now (nil when the driver runs).
 func (s *S) Current() *Task { return s.cur.Load() }
+
+// ---------------------------------------------------------------------------------------------
+// Preemption-bounded systematic exploration (stateless: every schedule is executed from scratch).
+
+type decision struct {
+	options []int // alternatives in the order they are tried; options[0] is the default
+	cost    []int // preemption cost of each alternative
+	idx     int   // alternative taken in the current run
+	used    int   // preemptions used before this decision
+}
+
+// Explorer enumerates all schedules with at most MaxPreempt preemptions. A run calls Choose at
+// every decision point with the set of enabled actors and the actor that ran last (-1 = none);
+// continuing the last actor is free, switching away from it while it is still enabled costs one
+// preemption.
+type Explorer struct {
+	MaxPreempt int
+	stack      []decision
+	pos        int
+	Runs       int
+}
+
+// Choose returns the actor to run next.
+func (e *Explorer) Choose(enabled []int, last int) int {
+	if e.pos < len(e.stack) { // replaying the prefix
+		d := e.stack[e.pos]
+		e.pos++
+		return d.options[d.idx]
+	}
+	used := 0
+	if n := len(e.stack); n > 0 {
+		p := e.stack[n-1]
+		used = p.used + p.cost[p.idx]
+	}
+	lastEnabled := false
+	for _, a := range enabled {
+		if a == last {
+			lastEnabled = true
+		}
+	}
+	var d decision
+	d.used = used
+	if lastEnabled {
+		d.options = append(d.options, last)
+		d.cost = append(d.cost, 0)
+	}
+	for _, a := range enabled {
+		if a == last {
+			continue
+		}
+		c := 0
+		if lastEnabled {
+			c = 1
+		}
+		d.options = append(d.options, a)
+		d.cost = append(d.cost, c)
+	}
+	e.stack = append(e.stack, d)
+	e.pos++
+	return d.options[0]
+}
+
+// Next prepares the next schedule; false when the bounded space is exhausted.
+func (e *Explorer) Next() bool {
+	e.Runs++
+	for len(e.stack) > 0 {
+		d := &e.stack[len(e.stack)-1]
+		found := false
+		for d.idx+1 < len(d.options) {
+			d.idx++
+			if d.used+d.cost[d.idx] <= e.MaxPreempt {
+				found = true
+				break
+			}
+		}
+		if found {
+			e.pos = 0
+			return true
+		}
+		e.stack = e.stack[:len(e.stack)-1]
+	}
+	return false
+}
+
+// Trace returns the actors chosen in the current run (for reporting).
+func (e *Explorer) Trace() []int {
+	var tr []int
+	for _, d := range e.stack {
+		tr = append(tr, d.options[d.idx])
+	}
+	return tr
+}
